@@ -65,6 +65,9 @@ def plan(prop):
     if prop == 'C05':
         for k, closed in shapes[:3]:
             obs.append((core, lambda ctx, k=k, c=closed: co.ob_capacity_gate(ctx, k, c)))
+    if prop in ('C05', 'C01'):
+        for jp in (((1, 1),) if Q else ((1, 1), (2, 1), (1, 1, 1))):
+            obs.append((core, lambda ctx, jp=jp: co.ob_group_state(ctx, jp)))
     if prop == 'C05':
         for k, closed in [(0, True), (2, True), (1, False)]:
             obs.append((core, lambda ctx, k=k, c=closed: co.ob_deep_copy(ctx, k, c)))
